@@ -499,6 +499,23 @@ fn specs(tier: Tier) -> Vec<Spec> {
                 }
             }
         }
+        // quick only: the 4-row matrices of (int32,int32) whose rows are all tuple patterns with at least
+        // one literal (8 patterns): the smallest space in which a literal first seen in row 4 meets two
+        // earlier rows that are wildcards in the switched column (thorough has all 4-row matrices)
+        if tier == Tier::Quick && ty == "(int32,int32)" {
+            let pats = patterns(&pt, depth_for(ty));
+            let sel: Vec<usize> = pats
+                .iter()
+                .enumerate()
+                .filter(|(_, p)| matches!(p, Pat::Tuple(ps) if ps.iter().any(|q| matches!(q, Pat::Int(..)))))
+                .map(|(i, _)| i)
+                .collect();
+            let n = sel.len();
+            for code in 0..n.pow(4) {
+                let rows = vec![sel[code / (n * n * n)], sel[(code / (n * n)) % n], sel[(code / n) % n], sel[code % n]];
+                out.push(Spec { ty: ty.into(), rows, catch_all: true, int_result: false, as_let: false, only_value: None });
+            }
+        }
     }
     out
 }
@@ -511,7 +528,7 @@ impl Family for Patterns {
         &["C06", "C01", "C02", "C04"]
     }
     fn rule(&self) -> &'static str {
-        "scrutinee types {bool,int32,uint8,string,(bool,bool),(bool,int32),E,Opt[bool],S,(E2,E2),(int32,int32),(string,int32),(int32,string),(int32,int32,int32)}; all patterns (wildcard, variable, 2 literals, constructor/tuple/struct with sub-patterns; depth 2 for S and (E2,E2); columns of all-literal-typed tuples use {_, lit0, lit1}); all matrices of <= 3 rows for types with <= 12 patterns, else <= 2 rows (quick) / <= 4 rows for <= 12 patterns, <= 3 rows for <= 30 patterns, else 2 (thorough), with and without a trailing catch-all, results unit and int32; every destructuring let; each matrix applied to every value of the type (one program per value when some value matches no row); the scrutinee is an effect probe; each arm prints its index and every variable it binds. non-trivial = matrices where a row other than the first is selected for some value, or some value matches no row; distinct = distinct source text"
+        "scrutinee types {bool,int32,uint8,string,(bool,bool),(bool,int32),E,Opt[bool],S,(E2,E2),(int32,int32),(string,int32),(int32,string),(int32,int32,int32)}; all patterns (wildcard, variable, 2 literals, constructor/tuple/struct with sub-patterns; depth 2 for S and (E2,E2); columns of all-literal-typed tuples use {_, lit0, lit1}); all matrices of <= 3 rows for types with <= 12 patterns, else <= 2 rows, plus the 4-row matrices of (int32,int32) over the 8 tuple patterns with a literal, with a catch-all (quick) / <= 4 rows for <= 12 patterns, <= 3 rows for <= 30 patterns, else 2 (thorough), with and without a trailing catch-all, results unit and int32; every destructuring let; each matrix applied to every value of the type (one program per value when some value matches no row); the scrutinee is an effect probe; each arm prints its index and every variable it binds. non-trivial = matrices where a row other than the first is selected for some value, or some value matches no row; distinct = distinct source text"
     }
     fn cases(&self, tier: Tier) -> Box<dyn Iterator<Item = Value> + '_> {
         let n = specs(tier).len();
